@@ -39,6 +39,7 @@ type Solver struct {
 	depth    int
 	script   []string // every command of the current path scope (for fallback solvers / dumps)
 	fallbackMs int
+	Restarts int
 	Fallbacks int
 	FallbackTime time.Duration
 }
@@ -238,12 +239,46 @@ func (s *Solver) CheckWith(extra *Term) SatResult {
 		f.Close()
 	}
 	if len(s.Errors) > nerr {
-		return Unknown
+		// the incremental process reported an error (e.g. "push canceled" after a timeout): its
+		// scope stack can no longer be trusted - restart it from the path script and decide
+		// this query one-shot
+		s.restartFromScript()
+		return s.fallback(r)
 	}
 	if res == Unknown {
 		res = s.fallback(r)
 	}
 	return res
+}
+
+// restartFromScript replaces the solver process and replays the current path scope.
+func (s *Solver) restartFromScript() {
+	script := append([]string(nil), s.script...)
+	if s.cmd != nil {
+		s.in.Close()
+		s.cmd.Process.Kill()
+		s.cmd.Wait()
+	}
+	defined, declared := s.defined, s.declared
+	errs := s.Errors
+	if err := s.start(); err != nil {
+		s.Errors = append(errs, "solver restart failed: "+err.Error())
+		return
+	}
+	s.Errors = errs
+	s.Restarts++
+	s.defined, s.declared = defined, declared
+	s.script = s.script[:0]
+	s.depth = 0
+	for _, l := range script {
+		if strings.HasPrefix(l, "(push") {
+			s.depth++
+		}
+		s.send(l)
+	}
+	if s.depth == 0 {
+		s.Push()
+	}
 }
 
 // fallback re-decides a query that the incremental solver gave up on, one-shot: z3 5.1.0
